@@ -3,7 +3,7 @@
 //!     successor must equal fresh(t'); (b) batches of two edits in one update; (c) BFS over
 //!     real histories, states deduplicated on the implementation state.
 use crate::common::*;
-use crate::gen::ast::print_program;
+use crate::gen::ast::{print_program, NodeKind, Role};
 use crate::gen::layout::*;
 use crate::progs;
 use crate::soup::*;
@@ -296,6 +296,64 @@ pub fn families(tier: Tier) -> Vec<(&'static str, Vec<Case>)> {
             }
         }
         fams.push(("F5-valid-to-valid-token-edits", v));
+    }
+    // F6: structural valid -> valid(ish) edits on multi-declaration programs, with and without
+    // doc comments: a statement inserted at / removed from every statement start, `ref` removed
+    // from / added to every parameter, a comment line inserted in front of / removed from every
+    // declaration and statement start
+    {
+        let items = progs::typed_family(Tier::Quick);
+        let mut v = vec![];
+        for (pi, it) in items.iter().enumerate() {
+            let scen = it.family == "scenario-permutations";
+            if !(progs::always_included(it.family) || (scen && pi % tier.pick(40, 6) == 0) || (!scen && pi % tier.pick(120, 15) == 0)) {
+                continue;
+            }
+            let pr = print_program(&it.program);
+            let starts: Vec<usize> = pr.decl_spans.iter().map(|s| s.0).collect();
+            for (layout, gaps) in [(Layout::Spaces, vec![]), (Layout::Pretty, starts.clone())] {
+                let r = render(&pr.toks, layout, &gaps, &|g| format!(" doc{}", g));
+                let text = &r.text;
+                let at = |k: usize| r.tok_ranges.get(k).map(|x| x.0).unwrap_or(text.len());
+                // statements in and out
+                for &k in &pr.stmt_starts {
+                    let p = at(k);
+                    for ins in ["; ", "i := 1 ; ", "{ } ", "// note\n"] {
+                        v.push(Case { family: "F6-structural-edits", text: text.clone(), batches: vec![vec![(p, p, ins.to_string())]] });
+                    }
+                }
+                for sp in &pr.spans {
+                    if matches!(sp.kind, NodeKind::StmtAssign | NodeKind::StmtCall | NodeKind::StmtEmpty) && sp.end > sp.first {
+                        v.push(Case { family: "F6-structural-edits", text: text.clone(), batches: vec![vec![(at(sp.first), r.tok_ranges[sp.end - 1].1, String::new())]] });
+                    }
+                }
+                // ref in and out
+                for (k, t) in pr.toks.iter().enumerate() {
+                    if t.text == "ref" {
+                        v.push(Case { family: "F6-structural-edits", text: text.clone(), batches: vec![vec![(at(k), at(k + 1), String::new())]] });
+                    }
+                    if matches!(t.class, crate::gen::ast::TokClass::Ident(Role::ParamDecl)) && k > 0 && pr.toks[k - 1].text != "ref" {
+                        v.push(Case { family: "F6-structural-edits", text: text.clone(), batches: vec![vec![(at(k), at(k), "ref ".to_string())]] });
+                    }
+                }
+                // comment lines in and out (declaration starts)
+                for &k in &starts {
+                    let p = at(k);
+                    v.push(Case { family: "F6-structural-edits", text: text.clone(), batches: vec![vec![(p, p, "// header\n".to_string())]] });
+                }
+                for c in &r.comments {
+                    // remove the comment with its line end
+                    let mut e = c.2;
+                    while e < text.len() && !text[..e].ends_with('\n') {
+                        e += 1;
+                    }
+                    if text.is_char_boundary(e) {
+                        v.push(Case { family: "F6-structural-edits", text: text.clone(), batches: vec![vec![(c.1, e, String::new())]] });
+                    }
+                }
+            }
+        }
+        fams.push(("F6-structural-edits", v));
     }
     // batches: ordered pairs of edits delivered in one update, on small token soups
     {
@@ -616,7 +674,7 @@ after a fresh didOpen {:?}", last(&o), last(&of)))
         use crate::session::{Session, URI};
         let cases: Vec<&Case> = fams
             .iter()
-            .filter(|(n, _)| *n == "F2-token-soup" || *n == "F4-program-token-windows" || *n == "F5-valid-to-valid-token-edits" || *n == "batches-of-two" || *n == "empty-update" || *n == "same-length-edits")
+            .filter(|(n, _)| *n == "F2-token-soup" || *n == "F4-program-token-windows" || *n == "F5-valid-to-valid-token-edits" || *n == "F6-structural-edits" || *n == "batches-of-two" || *n == "empty-update" || *n == "same-length-edits")
             .flat_map(|(_, cs)| cs.iter().step_by(tier.pick(211, 29)))
             .filter(|c| !known.contains(&c.id()))
             .collect();
